@@ -33,11 +33,26 @@ def cond_src(c):
     raise ValueError(c)
 
 
-def render(sts, indent=1):
+def render(sts, indent=1, spell_elif=False):
+    """spell_elif: an else branch that is exactly one if statement is written `elif` (same syntax tree, other positions)"""
     pad = "    " * indent
     lines = []
     for s in sts:
         k = s[0]
+        if k == "if" and spell_elif:
+            cur = s
+            lines.append(f"{pad}if {cond_src(cur[1])}:")
+            while True:
+                lines += render(cur[2], indent + 1, True) or [f"{pad}    pass"]
+                if len(cur[3]) == 1 and cur[3][0][0] == "if":
+                    cur = cur[3][0]
+                    lines.append(f"{pad}elif {cond_src(cur[1])}:")
+                    continue
+                if cur[3]:
+                    lines.append(f"{pad}else:")
+                    lines += render(cur[3], indent + 1, True)
+                break
+            continue
         if k == "simple":
             lines.append(f"{pad}t({s[1]})")
         elif k == "ret":
@@ -52,42 +67,42 @@ def render(sts, indent=1):
             lines.append(f"{pad}assert {cond_src(s[1])}")
         elif k == "if":
             lines.append(f"{pad}if {cond_src(s[1])}:")
-            lines += render(s[2], indent + 1) or [f"{pad}    pass"]
+            lines += render(s[2], indent + 1, spell_elif) or [f"{pad}    pass"]
             if s[3]:
                 lines.append(f"{pad}else:")
-                lines += render(s[3], indent + 1)
+                lines += render(s[3], indent + 1, spell_elif)
         elif k == "while":
             lines.append(f"{pad}while {cond_src(s[1])}:")
-            lines += render(s[2], indent + 1) or [f"{pad}    pass"]
+            lines += render(s[2], indent + 1, spell_elif) or [f"{pad}    pass"]
             if len(s) > 3 and s[3]:
                 lines.append(f"{pad}else:")
-                lines += render(s[3], indent + 1)
+                lines += render(s[3], indent + 1, spell_elif)
         elif k == "for":
             it = {"empty": "[]", "nonempty": "[1, 2]", "unk": "it()"}[s[1]]
             lines.append(f"{pad}for _ in {it}:")
-            lines += render(s[2], indent + 1) or [f"{pad}    pass"]
+            lines += render(s[2], indent + 1, spell_elif) or [f"{pad}    pass"]
             if len(s) > 3 and s[3]:
                 lines.append(f"{pad}else:")
-                lines += render(s[3], indent + 1)
+                lines += render(s[3], indent + 1, spell_elif)
         elif k == "try":
             lines.append(f"{pad}try:")
-            lines += render(s[1], indent + 1) or [f"{pad}    pass"]
+            lines += render(s[1], indent + 1, spell_elif) or [f"{pad}    pass"]
             if s[2] != "none":
                 lines.append(f"{pad}except {'Exception' if s[2] == 'all' else 'sel()'}:")
-                lines += render(s[3], indent + 1) or [f"{pad}    pass"]
+                lines += render(s[3], indent + 1, spell_elif) or [f"{pad}    pass"]
             if s[4] or s[2] == "none":
                 lines.append(f"{pad}finally:")
-                lines += render(s[4], indent + 1) or [f"{pad}    pass"]
+                lines += render(s[4], indent + 1, spell_elif) or [f"{pad}    pass"]
         elif k == "with":
             lines.append(f"{pad}with ctx():")
-            lines += render(s[1], indent + 1) or [f"{pad}    pass"]
+            lines += render(s[1], indent + 1, spell_elif) or [f"{pad}    pass"]
         else:
             raise ValueError(s)
     return lines
 
 
-def program(sts):
-    return "def f():\n" + "\n".join(render(sts) or ["    pass"]) + "\n"
+def program(sts, spell_elif=False):
+    return "def f():\n" + "\n".join(render(sts, 1, spell_elif) or ["    pass"]) + "\n"
 
 
 # ------------------------------------------------------------------------------------------------ reading back
@@ -252,6 +267,15 @@ def targeted():
         out.append([["if", c, [["try", [S(1), ["raise"]], "some", [["ret"]], []], ["ret"]], [S(2)]], S(3)])
         out.append([["while", "tt", [["try", [["if", c, [["brk"]], []]], "all", [S(1)], []], S(2)], []], S(3)])
         out.append([["if", c, [S(1), ["ret"]], []], ["with", [["if", "u2", [["ret"]], []], S(2), ["ret"]]]])
+        # constant tests in every position of an if / elif / else chain (both spellings are rendered by validate_suite)
+        for k in ("tt", "ff"):
+            out.append([["if", c, [S(1)], [["if", k, [S(2)], [S(3)]]]], S(4)])
+            out.append([["if", c, [S(1)], [["if", k, [S(2)], []]]], S(4)])
+            out.append([["if", c, [S(1)], [["if", k, [], [S(3), ["if", "u2", [S(5)], []]]]]], S(4)])
+            out.append([["if", c, [S(1)], [["if", "u2", [S(2)], [["if", k, [S(3)], [S(5)]]]]]], S(4)])
+            out.append([["if", c, [S(1)], [["if", k, [S(2)], [["if", "u2", [S(3)], [S(5)]]]]]], S(4)])
+            out.append([["if", k, [S(1)], [["if", c, [S(2)], [S(3)]]]], S(4)])
+            out.append([["for", "unk", [["if", c, [S(1)], [["if", k, [["cont"]], [["brk"]]]]]], [S(2)]], S(4)])
     return out
 
 
@@ -325,11 +349,16 @@ def validate_suite(ctx, rules=FLOW_RULES, n_random=(500, 6000)):
         progs.append(gen_list(r, r.choice([1, 2, 2, 3]), False, [10]))
     fns = {name: oracles.resolve_rule(name) for name in rules}
     reqs, metas = [], []
+    sources = []
     for sts in progs:
         src = program(sts)
+        sources.append(src)
+        alt = program(sts, spell_elif=True)
+        if alt != src:
+            sources.append(alt)
+    for src in sources:
         try:
             ast.parse(src)
-            assert skeleton_of_source(src) == sts or True
         except SyntaxError:
             continue
         for name, fn in fns.items():
@@ -362,7 +391,7 @@ def validate_suite(ctx, rules=FLOW_RULES, n_random=(500, 6000)):
                  "what": f"{name}: the rewrite is not validated (normal forms differ)"}
             s.disagreements.append(d)
     s.samples.append({"suite": "flow-validate", "rule": "fixes.swap_if_else", "before": "if not u(1): return 7\\nt(2)", "after": "if u(1): t(2) else: return 7", "validated": True})
-    s.note = ("labelled skeleton functions (targeted shapes + random, nesting <= 3) rendered to Python; each control-flow rule applied by the REAL code; input and output "
+    s.note = ("labelled skeleton functions (targeted shapes + random, nesting <= 3) rendered to Python, in both spellings of a nested if in an else branch (else: if / elif); each control-flow rule applied by the REAL code; input and output "
               "read back and compared by the proved validator (equal normal forms => same outcome, oracle position and trace under every valuation); histogram = per rule "
               "validated / outside the fragment; non-trivial = the rule changed the text")
     return s
